@@ -210,6 +210,15 @@ def oracle(case):
         return f"auc() = {full!r} but the Mann-Whitney statistic is {float(mw)!r} {info}"
     if abs(s.auc(x_axis="tpr", y_axis="fpr") - (1 - full)) > 1e-12:
         return f"exchanging the axes over the full range: {s.auc(x_axis='tpr', y_axis='fpr')!r} != 1 - {full!r} {info}"
+    if case.get("huge"):
+        # very large easy counts (beyond 32-bit integers): only the clauses that need no enumeration of the 1/N grid
+        for lo, hi in ((0.0, 0.5), (0.25, 0.75), (0.9, 1.0)):
+            a = s.auc(lo, hi)
+            if not (0 <= a <= hi - lo + 1e-12):
+                return f"auc({lo}, {hi}) = {a!r} is outside [0, upper-lower] {info}"
+            if abs(s.auc(lo, hi, y_axis="fnr") - ((hi - lo) - a)) > 1e-9:
+                return f"y-complement fails on [{lo},{hi}] {info}"
+        return None
     if set(pos) & set(neg):
         return None
     cuts = sorted({Fraction(0), Fraction(1)} | {Fraction(k, len(neg) + en) for k in range(len(neg) + en + 1)} | {Fraction(1, 3), Fraction(7, 10), Fraction(1, 20)})
@@ -262,7 +271,11 @@ def bounded(chk):
         for ep, en in easy:
             for sc, ec in B.CONFIGS:
                 items.append({"pos": pos, "neg": neg, "ep": ep, "en": en, "sc": sc, "ec": ec})
-    chk.bounded["bound"] = f"all weak orderings (every tie pattern) with both classes non-empty, pos+neg <= {maxn}; easy counts {easy}; 4 configurations; every pair of cuts on the 1/N grid plus 1/20, 1/3, 7/10"
+    for pos, neg in (([1.0, 3.0], [2.0, 4.0]), ([2.0], [1.0, 2.0, 3.0])):
+        for ep, en in ((0, 3 * 10**9), (2**31, 0), (10**12, 2**33)):
+            for sc, ec in B.CONFIGS:
+                items.append({"pos": pos, "neg": neg, "ep": ep, "en": en, "sc": sc, "ec": ec, "huge": True})
+    chk.bounded["bound"] = f"easy counts beyond 2^31 (full AUC, bound, complement); all weak orderings (every tie pattern) with both classes non-empty, pos+neg <= {maxn}; easy counts {easy}; 4 configurations; every pair of cuts on the 1/N grid plus 1/20, 1/3, 7/10"
     chk.bounded["rule"] = "enumerated; exact rational reference values (Mann-Whitney statistic, step-ROC area)"
     chk.bounded["exhaustive"] = True
     run_bounded(chk, items, eval_items)
